@@ -528,7 +528,7 @@ def rewrite_format(src, ed, lo, hi, log, substs=()):
                 if k >= len(explicit):
                     raise LiftError(f'{src.rel}:{src.line_of(lit.start)}: positional placeholder without argument')
                 x0, x1 = explicit[k]
-                args.append(src.text[sig[x0].start:sig[x1 - 1].end].lstrip('#'))
+                args.append(src.text[sig[x0].start:sig[x1 - 1].end])
                 k += 1
         if k != len(explicit):
             raise LiftError(f'{src.rel}:{src.line_of(lit.start)}: format! arguments that no placeholder uses (named arguments are outside R11)')
@@ -543,6 +543,8 @@ def rewrite_format(src, ed, lo, hi, log, substs=()):
                 if nf and nf in na:
                     args[k_] = na.replace(nf, to)
                     log.append(f'R-subst {src.rel}:{src.line_of(sig[i].start)} `{frm}` => `{to}` (inside a format! argument)')
+        # (inside a lifted quote! template the arguments still carry their `#interpolation` marks: dropped here, R17)
+        args = [_re.sub(r'#\s*(?=[A-Za-z_])', '', a_) for a_ in args]
         call = f'vx_fmt{len(ph)}(' + f'{openq}{pieces[0]}{closeq}'
         for a_, p_ in zip(args, pieces[1:]):
             call += f', &({a_}), {openq}{p_}{closeq}'
